@@ -52,7 +52,7 @@ def install_inflate_wrapper() -> None:
         def decompress_sync(self, data: Any, max_length: int = 0) -> bytes:
             data = bytes(data)
             ent = {"has": True, "inp": list(data), "maxlen": int(max_length), "ok": False, "outlen": 0,
-                   "utf8": False, "out": [], "xeq": True, "err": ""}
+                   "utf8": False, "out": [], "xeq": True, "err": "", "full": True}
             INFL_LOG.append(ent)
             try:
                 # independent inflater; a block with BFINAL=1 ends a deflate stream, the rest of the
@@ -85,6 +85,8 @@ def install_inflate_wrapper() -> None:
                 ent["utf8"] = False
             capped = bool(max_length) and len(out) >= max_length      # stopped early: the rest was never looked at
             ent["xeq"] = capped or (xo is not None and xo[: len(out)] == out)
+            # did the call return the whole message?  (it stopped at max_length: ask the independent inflater)
+            ent["full"] = (not capped) or (xo is not None and len(xo) == len(out))
             return out
 
     rp.ZLibDecompressor = RecordingDecompressor  # type: ignore[misc]
